@@ -89,15 +89,38 @@ structure Sync where
   failed : Bool               -- errSaveHistoricalBlocks raised (consumer goroutine gone)
   consumed : Nat              -- number of emitted blocks already handed to the consumer
   client : Option Client      -- none: no fetch was started (window complete from local blocks)
+  oldest : Block              -- s.oldestBlock = validityBlocks[0] of `backfillFromExisting`
+  fwdDone : Bool              -- `UpdateSyncTarget` saw the full window: `Close()` (done + cancel)
+  pendingMin : Option Int     -- value stored into `minTimestamp` by `UpdateSyncTarget` while the
+                              -- client is parked in a fetch; the client reads it after that fetch
 
 /-- `Syncer.Start(target)`: `backfillFromExisting` (= `populate`), then either done or start
 fetching from `oldestBlock = validityBlocks[0]`. -/
 def Sync.start (idx : Index) (W : Int) (v : VW) (fuel : Nat) (target : Block) : Sync :=
   let r := populate idx W v fuel target
   let oldest := r.2.1.head?.getD target
-  if r.2.2 then { vw := r.1, saved := [], failed := false, consumed := 0, client := none }
-  else { vw := r.1, saved := [], failed := false, consumed := 0,
-         client := some (Client.init oldest (oldestAllowed W target.ts)) }
+  { vw := r.1, saved := [], failed := false, consumed := 0, oldest := oldest, fwdDone := false,
+    pendingMin := none,
+    client := if r.2.2 then none else some (Client.init oldest (oldestAllowed W target.ts)) }
+
+/-- The forward-completion test of `Syncer.accept`:
+`blk.GetTimestamp() - s.oldestBlock.GetTimestamp() > validityWindow` (strict). -/
+def forwardRule (W : Int) (oldest blk : Block) : Bool := decide (blk.ts - oldest.ts > W)
+
+/-- `UpdateSyncTarget(target)`: `accept(target)` (rule above, then `TimeValidityWindow.Accept`);
+when the window has been seen, `Close()`; otherwise store the new minimum timestamp. -/
+def Sync.target (W : Int) (s : Sync) (t : Block) : Sync :=
+  if forwardRule W s.oldest t then { s with vw := accept s.vw t, fwdDone := true }
+  else { s with vw := accept s.vw t, pendingMin := some (oldestAllowed W t.ts) }
+
+/-- The minimum timestamp the client sees after the fetch it is parked in: an explicit value
+(environment), else what `UpdateSyncTarget` stored meanwhile, else unchanged. -/
+def Sync.effMin (s : Sync) (explicit : Option Int) : Int :=
+  match explicit, s.pendingMin, s.client with
+  | some m, _, _ => m
+  | none, some m, _ => m
+  | none, none, some c => c.min
+  | none, none, none => 0
 
 /-- The consumer goroutine: `SaveHistorical` (fails from index `failAt` on) then
 `AcceptHistorical`, for every block received from the channel. -/
@@ -109,22 +132,26 @@ def Sync.consume (failAt : Option Nat) (s : Sync) : List Block → Sync
     else Sync.consume failAt
       { s with vw := acceptHistorical s.vw b, saved := s.saved ++ [b], consumed := s.consumed + 1 } rest
 
-/-- One peer event followed by the consumer draining the channel. -/
+/-- One peer event followed by the consumer draining the channel. After `Close()` the fetch
+context is cancelled: the client goroutine exits without taking another answer. -/
 def Sync.step (fixed : Bool) (parse : Raw → Option Block) (failAt : Option Nat) (s : Sync)
     (ev : Event) : Sync :=
+  if s.fwdDone then s else
   match s.client with
   | none => s
   | some c =>
     let c' := c.step fixed parse ev
-    Sync.consume failAt { s with client := some c' } (c'.emitted.drop s.consumed)
+    Sync.consume failAt { s with client := some c', pendingMin := none } (c'.emitted.drop s.consumed)
 
 def Sync.run (fixed : Bool) (parse : Raw → Option Block) (failAt : Option Nat) (s : Sync) :
     List Event → Sync
   | [] => s
   | ev :: rest => Sync.run fixed parse failAt (s.step fixed parse failAt ev) rest
 
-/-- `doneChan` closed: no fetch needed, or the channel was closed and drained. -/
+/-- `doneChan` closed: no fetch needed, forward sync saw the window, or the channel was closed
+and drained. -/
 def Sync.done (fixed : Bool) (s : Sync) : Bool :=
+  s.fwdDone ||
   match s.client with
   | none => true
   | some c => c.isClosed fixed && !s.failed
